@@ -76,7 +76,7 @@ CLAIMED.update({
 
 CLAIMED.update({
     "C02": dict(
-        text="Deductive proof (Verus) on the two decision blocks of AssemblyCode::optimize, cut verbatim by their anchor comments: (A) the adjacent-pair rules mark an instruction for removal only when it is unprotected and the pair is one of the eliminations that are invisible by 6502 semantics (same-operand store/load, inverse transfers, dead first load, ORA #0, PLA/PHA, compare of two known-equal/different immediates), and swap only LDA with CLC/SEC; (B) the register-knowledge transfer is sound against the ISA write sets: a written register is afterwards unknown or holds exactly what the instruction put there, index changes invalidate `v,X`/`v,Y` knowledge, a written memory cell is no longer believed to sit in another register, the belief 'N/Z describe A' is held only when true, a reload is dropped only when unprotected and provably redundant; what is known after a JMP is forgotten (it would otherwise reach a join point through the JMP-to-next-label rule). BOUNDED stand-in (labelled, never counted as proved): the simulation corpus compiled at -O1 must compute what it computes at -O0. A store forgets every memory-derived belief (no no-alias assumption for STA/STX/STY). The compare-folding rule is sound in context only if the folded BEQ/BNE is the last reader of the compare: generate_branch_instruction is proved (Kani, all operators, signed and unsigned) to leave no branch after an unprotected BEQ/BNE. U-frame: the arm of optimize() that restarts the scan at a label -- forgetting the registers -- is also taken at an inline assembly line (required-pattern scan; bounded group opt-across-inline-asm runs it). U-optloop (inductive invariants on the loops of block D and of the head): the two instructions handed to the pair rules have only comments / removed lines between them, and after a label or an inline assembly line, as at the start of a function, nothing is known but what the new first instruction loads; the belief `N/Z describe X / Y` is kept only through instructions that leave it true (U-opt xfer-flags-x / -y).",
+        text="Deductive proof (Verus) on the two decision blocks of AssemblyCode::optimize, cut verbatim by their anchor comments: (A) the adjacent-pair rules mark an instruction for removal only when it is unprotected and the pair is one of the eliminations that are invisible by 6502 semantics (same-operand store/load, inverse transfers, dead first load, ORA #0, PLA/PHA, compare of two known-equal/different immediates), and swap only LDA with CLC/SEC; (B) the register-knowledge transfer is sound against the ISA write sets: a written register is afterwards unknown or holds exactly what the instruction put there, index changes invalidate `v,X`/`v,Y` knowledge, a written memory cell is no longer believed to sit in another register, the belief 'N/Z describe A' is held only when true, a reload is dropped only when unprotected and provably redundant; what is known after a JMP is forgotten (it would otherwise reach a join point through the JMP-to-next-label rule). BOUNDED stand-in (labelled, never counted as proved): the simulation corpus compiled at -O1 must compute what it computes at -O0. A store forgets every memory-derived belief (no no-alias assumption for STA/STX/STY). The compare-folding rule is sound in context only if the folded BEQ/BNE is the last reader of the compare: generate_branch_instruction is proved (Kani, all operators, signed and unsigned) to leave no branch after an unprotected BEQ/BNE. U-frame: the arm of optimize() that restarts the scan at a label -- forgetting the registers -- is also taken at an inline assembly line (required-pattern scan; bounded group opt-across-inline-asm runs it). U-optloop (inductive invariants on the loops of block D and of the head): the two instructions handed to the pair rules have only comments / removed lines between them, and after a label or an inline assembly line, as at the start of a function, nothing is known but what the new first instruction loads; the belief `N/Z describe X / Y` is kept only through instructions that leave it true (U-opt xfer-flags-x / -y). The store / load pair rule drops the load only when N/Z already describe A; the belief about the flags is forgotten at JSR / JMP and re-derived from the next instruction after a removed pair.",
         note="Partial: whole-program equivalence of -O1 and -O0 is not decided: the Dummy writes and the advance of `first` / `second` after a rule fired, the multipeek look-ahead (modelled as arbitrary lines), the JMP-to-next-label rule, and whether a removed flag-setting load is invisible in context are outside the blocks under contract (the knowledge resets at labels / inline assembly and the initial knowledge are block D and the head, U-optloop). ISA write sets and the list of sound eliminations are the oracle (A-isa). A-noalias, A-immtext. -O2/-O3 are identical to -O1 in this library.",
         technique="contract-based deductive verification (Verus, code blocks extracted mechanically from /repo by anchors, free variables turned into parameters)",
         design="DESIGN.md section 5, C02"),
@@ -84,7 +84,7 @@ CLAIMED.update({
 
 CLAIMED.update({
     "C14": dict(
-        text="Deductive proof (Verus) of the structural half of inlining on the real code: append_code copies every line of the callee, suffixing exactly the label definitions and the operands of branches/JMP with `inline<counter>` and changing nothing else (mnemonic, sizes, cycles, inline-assembly and comment lines); suffixing is injective, so a branch of the expansion resolves to a label of the expansion exactly when it did in the callee; push_code uses a fresh counter, appends the renamed clone after the caller's code followed by the end label, and fails with an error (no panic) when the callee has no code yet; a `return` in an inline function jumps to the label that becomes that end label, a called function returns by RTS; after a call, inlined or not, the generator forgets what it believed about N/Z. BOUNDED stand-in (labelled): the same programs with and without `inline` run on the 6502 interpreter. push_code whole: the caller's code is followed by the callee's lines renamed with a fresh counter and then by exactly the label that the renamed `JMP .endof` of an early return names. U-frame: push_code leaves the call tree and the in-use set alone (frame condition by a scan of its text and of the helpers it calls).",
+        text="Deductive proof (Verus) of the structural half of inlining on the real code: append_code copies every line of the callee, suffixing exactly the label definitions and the operands of branches/JMP with `inline<counter>` and changing nothing else (mnemonic, sizes, cycles, inline-assembly and comment lines); suffixing is injective, so a branch of the expansion resolves to a label of the expansion exactly when it did in the callee; push_code uses a fresh counter, appends the renamed clone after the caller's code followed by the end label, and fails with an error (no panic) when the callee has no code yet; a `return` in an inline function jumps to the label that becomes that end label, a called function returns by RTS; after a call, inlined or not, the generator forgets what it believed about N/Z. BOUNDED stand-in (labelled): the same programs with and without `inline` run on the 6502 interpreter. push_code whole: the caller's code is followed by the callee's lines renamed with a fresh counter and then by exactly the label that the renamed `JMP .endof` of an early return names. U-frame: push_code leaves the call tree and the in-use set alone (frame condition by a scan of its text and of the helpers it calls). The tail of generate_return (U-inline) flushes the deferred ++ / -- and a borrowed Y before the leaving instruction in both placements.",
         note="Partial: behavioural equivalence of the inlined and the called placement (live registers at the call site, parameter passing, flags) is whole-program semantics and is not decided. Derived Clone assumed structural; String as hash key; std::fmt; asm()/append_* contracts proved in U-asm/U-size and reused as stubs.",
         technique="contract-based deductive verification (Verus; modular: callers verified against callee contracts proved in other units)",
         design="DESIGN.md section 5, C14"),
@@ -92,13 +92,13 @@ CLAIMED.update({
 
 CLAIMED.update({
     "C01": dict(
-        text="Partial, per-function: Kani (full 8-bit domains, loop-free) runs the real generate_branch_instruction / generate_branch_instruction_alt against a recording shim and interprets the emitted branches on the flags a 6502 CMP / load produces: the branch reaches the label exactly when `a op b` holds, for every operator, signedness, a, b (signed orderings split into the overflow and non-overflow halves; the seven halves that are false today are recorded known findings with witness programs); the negate/switch operator tables of generate_condition_ex are semantically exact for all 16-bit operands; the operator tables handed to the Pratt parser follow C precedence; the whole of generate_plusplus is run against a recording shim and its emitted sequences are interpreted on every 16-bit / 8-bit value and register state (value +-1, registers and a live accumulator preserved, and the generator's flags belief afterwards is true); operand canonicalisation of generate_arithm never exchanges the operands of - and /; Verus shows csleep/load invalidate the generator's N/Z belief and label() resets it; the whole of generate_condition_ex is verified against stubs that keep a symbolic account of A/X/Y/cctmp and of the two values the flags compare: every branch emitter is reached with `flags-operands operator` equal to the comparison asked for (`l op r`, negated if asked) up to exchanging the operands together with mirroring the operator, including the self-recursion, and the generator's flags belief is true afterwards; the decision sequence of generate_condition_16bits is interpreted for every high/low byte of the 16-bit difference; generate_condition is verified in two parts: its logical structure (&&, ||, !, delegation of comparisons) as a recursive contract -- control reaches the label exactly when the condition holds, for every truth assignment of the leaves, local labels fresh (decimal rendering proved injective) -- and its value tail (`if (x)`); generate_if (exactly one body runs, break / continue shortcuts, the belief restored at the else label is one known to be true there) the loops (generate_while / do_while / for_loop / break / continue: single-pass contracts over a ghost control state, for arbitrary condition oracles and body exits) and generate_switch (inductive invariants over its cases: the statements that run are those C runs, for every value, case list and statement exit) are verified whole; generate_function_call whole with its parameter and call blocks as stubs (live accumulator and scratch byte restored, stack balanced, result where the operand says), the variable / element-access arm of generate_expr (operand names the variable, subscripts on scalars rejected, subscript code emitted once, scratch byte free when Y is parked there), the Expr::FunctionCall arm of generate_expr (a call is emitted once per evaluation, never again for the high byte of a 16-bit context) and the var_sign arms of the declaration decoders (declared signedness is the keyword written) are R8 windows under contract; generate_expr_cond / generate_not / generate_ternary (a condition used as a value) give 1 / 0, keep the stack balanced and never enter generate_condition with a live accumulator; generate_shift and generate_sign_extend are verified on the ghost 6502 as well; the whole of generate_assign is verified the same way for every destination x source kind (the destination holds the source's value, nothing else is disturbed, stack balanced, and the belief about N/Z is true afterwards); the whole of generate_arithm is verified against stubs that execute every emitted instruction on a ghost 6502: the returned expression denotes `l op r` for the byte computed (with the incoming carry for the high byte), carry-out, X/Y kept, stack balanced, a live accumulator preserved. BOUNDED stand-in (labelled, never counted as proved): a corpus of programs compiled by the real compiler and executed on a 6502 interpreter, compared with C. U-optable: the rule-to-operation matches of both expression parsers give every operator token of the grammar the operation C gives it. U-csleep: a transfer to X / Y by store() forgets the flags belief.",
+        text="Partial, per-function: Kani (full 8-bit domains, loop-free) runs the real generate_branch_instruction / generate_branch_instruction_alt against a recording shim and interprets the emitted branches on the flags a 6502 CMP / load produces: the branch reaches the label exactly when `a op b` holds, for every operator, signedness, a, b (signed orderings split into the overflow and non-overflow halves; the seven halves that are false today are recorded known findings with witness programs); the negate/switch operator tables of generate_condition_ex are semantically exact for all 16-bit operands; the operator tables handed to the Pratt parser follow C precedence; the whole of generate_plusplus is run against a recording shim and its emitted sequences are interpreted on every 16-bit / 8-bit value and register state (value +-1, registers and a live accumulator preserved, and the generator's flags belief afterwards is true); operand canonicalisation of generate_arithm never exchanges the operands of - and /; Verus shows csleep/load invalidate the generator's N/Z belief and label() resets it; the whole of generate_condition_ex is verified against stubs that keep a symbolic account of A/X/Y/cctmp and of the two values the flags compare: every branch emitter is reached with `flags-operands operator` equal to the comparison asked for (`l op r`, negated if asked) up to exchanging the operands together with mirroring the operator, including the self-recursion, and the generator's flags belief is true afterwards; the decision sequence of generate_condition_16bits is interpreted for every high/low byte of the 16-bit difference; generate_condition is verified in two parts: its logical structure (&&, ||, !, delegation of comparisons) as a recursive contract -- control reaches the label exactly when the condition holds, for every truth assignment of the leaves, local labels fresh (decimal rendering proved injective) -- and its value tail (`if (x)`); generate_if (exactly one body runs, break / continue shortcuts, the belief restored at the else label is one known to be true there) the loops (generate_while / do_while / for_loop / break / continue: single-pass contracts over a ghost control state, for arbitrary condition oracles and body exits) and generate_switch (inductive invariants over its cases: the statements that run are those C runs, for every value, case list and statement exit) are verified whole; generate_function_call whole with its parameter and call blocks as stubs (live accumulator and scratch byte restored, stack balanced, result where the operand says), the variable / element-access arm of generate_expr (operand names the variable, subscripts on scalars rejected, subscript code emitted once, scratch byte free when Y is parked there), the Expr::FunctionCall arm of generate_expr (a call is emitted once per evaluation, never again for the high byte of a 16-bit context) and the var_sign arms of the declaration decoders (declared signedness is the keyword written) are R8 windows under contract; generate_expr_cond / generate_not / generate_ternary (a condition used as a value) give 1 / 0, keep the stack balanced and never enter generate_condition with a live accumulator; generate_shift and generate_sign_extend are verified on the ghost 6502 as well; the whole of generate_assign is verified the same way for every destination x source kind (the destination holds the source's value, nothing else is disturbed, stack balanced, and the belief about N/Z is true afterwards); the whole of generate_arithm is verified against stubs that execute every emitted instruction on a ghost 6502: the returned expression denotes `l op r` for the byte computed (with the incoming carry for the high byte), carry-out, X/Y kept, stack balanced, a live accumulator preserved. BOUNDED stand-in (labelled, never counted as proved): a corpus of programs compiled by the real compiler and executed on a 6502 interpreter, compared with C. U-optable: the rule-to-operation matches of both expression parsers give every operator token of the grammar the operation C gives it. U-csleep: a transfer to X / Y by store() forgets the flags belief. U-inline: `return e;` flushes the deferred side effects of e before leaving; U-csleep: an asm statement and a store() to memory leave no stale belief about the flags; U-subscript: the operand that is sign-extended has the index register of the element accessed.",
         note="Five more defects found by these contracts were repaired (indexed element vs index register compared the register with itself; PHA without PLA; offset overflow panic; stale N/Z belief after STX/STY and `Y = Y`; assignment of a void call panicked); `s = X + 1000` losing the carry into the high byte is a recorded known finding of the bounded unit. NOT decided: composition of these pieces into whole-program semantic preservation (expression evaluation order, register/temporary liveness, deferred ++, flags belief elsewhere, loops/switch/calls, scoping) and the 'must be rejected with an error' clause. That needs an invariant over the entire generator and a semantics of the pest AST: out of reach for per-function contracts here.",
         technique="contract-based deductive verification (Verus: whole generator functions against ghost-machine stubs of asm(); statement generators against asm()'s proved contract) + contract-style full-domain model checking of extracted loop-free lowering code (Kani); bounded simulation corpus as a labelled stand-in",
         design="DESIGN.md section 5, C01"),
     "C15": dict(
         text="Partial: the table-level mechanisms behind two of the listed rewrites are proved on the real code: `a < b` versus `b > a` and `if (c) A else B` versus `if (!c) B else A` rest on the negate/switch operator tables of generate_condition_ex, which Kani shows semantically exact for all operands (mirror and complement), and on the branch emitters being exact for every operator (shared with C01); commuting + & | ^ rests on generate_arithm's operand canonicalisation, proved to exchange operands only for + & | ^ * and never for - or / (plain or compound form); ++/-- on X, Y, chars and shorts are exact (so `++x` and `x += 1` rest on two exact lowerings); generate_condition_ex as a whole asks the same question whichever side an operand is written on (Verus, U-condex); generate_arithm computes `l op r` whichever operand order it picks (Verus, U-arithm). BOUNDED stand-in (labelled): for/while/do-while, compound assignment vs long form, switch vs if-chain, mirrored if/else run on the 6502 interpreter.",
-        note="NOT decided: op= forms beyond operand order, ++x vs x += 1, for vs while, switch vs if-chain, register vs constant index, call vs inlined body: these are agreements between different lowering paths, i.e. whole-program semantics.",
+        note="NOT decided: op= forms beyond operand order, ++x vs x += 1, for vs while, switch vs if-chain, register vs constant index, call vs inlined body: these are agreements between different lowering paths, i.e. whole-program semantics. In a unit that serves C15 every obligation about what the emitted code computes (tagged C01) counts for C15.",
         technique="contract-style full-domain model checking of extracted loop-free code (Kani) + contract-based deductive verification (Verus) of generate_condition_ex / generate_arithm; bounded simulation corpus as a labelled stand-in",
         design="DESIGN.md section 5, C15"),
 })
@@ -121,7 +121,7 @@ CLAIMED.update({
 
 CLAIMED.update({
     "C16": dict(
-        text="Partial: panic-freedom of the functions under contract. Every Verus unit generates the implicit side conditions of its real text (debug-profile arithmetic overflow, index bounds, unwrap, unreachable!, slicing) and they are discharged under the stated preconditions; named obligations cover the calculator (every operator returns Ok or Err for all i32 operands and propagates failed operands instead of unwrapping: Kani), the parse-error arm of compile() for an empty line table, error locations at offset 0, asm()'s acceptance condition (exactly when it returns Err), push_code on an undefined callee, undefine on an absent name, parse_int on literals that do not fit, generate_arithm / generate_condition_ex / generate_condition_16bits whole (no unwrap, unreachable!, overflow on any path under their preconditions). The operator tables of the expression parsers are under contract (U-optable: every infix token the grammar delivers has an arm and is registered in the Pratt table of the parser that receives it, so neither `unreachable!()` nor pest's panic on an unregistered operator can be reached from an operator), an asm() operand is looked up without unwrap (U-asm: the stub of get_variable requires the name to be declared), and two panic sites on user text are excluded by a scan of the function text (U-frame: literal markers written in the source, `#define` without a name).",
+        text="Partial: panic-freedom of the functions under contract. Every Verus unit generates the implicit side conditions of its real text (debug-profile arithmetic overflow, index bounds, unwrap, unreachable!, slicing) and they are discharged under the stated preconditions; named obligations cover the calculator (every operator returns Ok or Err for all i32 operands and propagates failed operands instead of unwrapping: Kani), the parse-error arm of compile() for an empty line table, error locations at offset 0, asm()'s acceptance condition (exactly when it returns Err), push_code on an undefined callee, undefine on an absent name, parse_int on literals that do not fit, generate_arithm / generate_condition_ex / generate_condition_16bits whole (no unwrap, unreachable!, overflow on any path under their preconditions). The operator tables of the expression parsers are under contract (U-optable: every infix token the grammar delivers has an arm and is registered in the Pratt table of the parser that receives it, so neither `unreachable!()` nor pest's panic on an unregistered operator can be reached from an operator), an asm() operand is looked up without unwrap (U-asm: the stub of get_variable requires the name to be declared), and two panic sites on user text are excluded by a scan of the function text (U-frame: literal markers written in the source, `#define` without a name). U-optable also checks the calculator's operator table against the grammar's calc_infix list.",
         note="NOT decided: the several hundred unwrap/unreachable!/index sites of the pest-tree walkers and of the rest of the generator, stack depth on deep nesting, and termination in general (check_branches, the closure computation, replace_all on self-referential macros, are known gaps, the last one also a known defect that was not repaired; parse_int on out-of-range literals was repaired and is under contract now). Preconditions of the contracted functions are caller obligations, proved only where a caller unit exists.",
         technique="contract-based deductive verification (implicit verification conditions of Verus on extracted functions) + Kani full-domain harnesses",
         design="DESIGN.md section 5, C16"),
